@@ -111,6 +111,23 @@ func c14ops() []c14op {
 			}
 			nm.Nodes = append(nm.Nodes, md)
 		}},
+		{"m.NewGlobalDef(named, initialised with the address of the first global)", "append-global-user", "global-type", func(w *c14world) bool {
+			if len(w.m.Globals) == 0 || len(w.m.Globals) > 3 {
+				return false
+			}
+			for _, g := range w.m.Globals {
+				if g.GlobalName == "addr" {
+					return false
+				}
+			}
+			return true
+		}, func(w *c14world) {
+			// the new global captures the pointer type of the first one.
+			w.m.NewGlobalDef("addr", w.m.Globals[0])
+		}},
+		{"set AddrSpace = 1 on the first global", "set-addrspace", "global-type", func(w *c14world) bool {
+			return len(w.m.Globals) > 0 && w.m.Globals[0].AddrSpace == 0
+		}, func(w *c14world) { w.m.Globals[0].AddrSpace = 1 }},
 		{"append metadata def with explicit sparse ID", "append-metadata-explicit", "metadata", func(w *c14world) bool {
 			for _, d := range w.m.MetadataDefs {
 				if d.ID() == 7 {
@@ -500,7 +517,7 @@ func runC14(c *fw.Check) {
 		maxLen, maxLen2 = 5, 4
 		c.SetBudget(40 * 60 * 1e9)
 	}
-	c.Rule = fmt.Sprintf("all edit histories of length <=%d over %d edit operations (append/insert/remove instructions, set/replace terminators (incl. value-producing unnamed invokes), name/rename/unname values, blocks and globals, add globals/functions/blocks, name a struct type in use, append/prepend metadata, append a metadata definition that already carries a sparse explicit ID; <=2 functions, <=3 blocks) on a fresh module, replayed from scratch; for each history the observer-free run is the reference and EVERY placement of one observer (of %d kinds) at every position is executed (two observers for histories of length <=%d); oracle: final String() equals the reference, no panic on a complete module, String() twice identical. distinct = (history, observer placement).", maxLen, len(ops), len(obs), maxLen2)
+	c.Rule = fmt.Sprintf("all edit histories of length <=%d over %d edit operations (append/insert/remove instructions, set/replace terminators (incl. value-producing unnamed invokes), name/rename/unname values, blocks and globals, add globals/functions/blocks, name a struct type in use, append/prepend metadata, append a metadata definition that already carries a sparse explicit ID, take the address of a global in another global, change a global's address space; <=2 functions, <=3 blocks) on a fresh module, replayed from scratch; for each history the observer-free run is the reference and EVERY placement of one observer (of %d kinds) at every position is executed (two observers for histories of length <=%d); oracle: final String() equals the reference, no panic on a complete module, String() twice identical. distinct = (history, observer placement).", maxLen, len(ops), len(obs), maxLen2)
 	// enumerate histories (BFS over enabled ops).
 	var hists [][]int
 	var rec func(seq []int)
